@@ -240,11 +240,90 @@ func c16Scope(e enum.Embed, k, n int, level int) *drv.Scope {
 		}}
 }
 
+// c16MultiScope: (a) the Paths variants with several paths of different lengths in one call (a long path first, then
+// shorter ones, and the other way round): every result must be exactly what the single-path function returns for
+// that path, for 64 and D; (b) open paths under epsilons far beyond every distance in the path (3.1e9 ... +Inf): the
+// end points must survive and the result must stay a sub-sequence, for 64 and D.
+func c16MultiScope(e enum.Embed, n int, stride uint64, level int) *drv.Scope {
+	var buf Path
+	huge := []float64{3.1e9, 1e10, 1e15, 9.3e18, 1e19, 1e200, math.MaxFloat64, math.Inf(1)}
+	toD := func(ps Paths) clipper.PathsD {
+		out := make(clipper.PathsD, len(ps))
+		for i, p := range ps {
+			out[i] = clipper.Path64ToPathD(p)
+		}
+		return out
+	}
+	size := (enum.PathCount(3, n) + stride - 1) / stride
+	return &drv.Scope{Name: fmt.Sprintf("simplify/several paths per call + huge epsilons/every %d-th of P(3,%d)/%s", stride, n, e.Name), Level: level, Size: size,
+		Show: func(idx uint64) any {
+			return map[string]any{"path": pathLit(enum.UnrankPath(idx*stride, 3, n, e, nil)), "companions": "its first 4 vertices, its reversal without the last vertex, itself", "epsilons": "0, .5, 1, 2; open paths also 3.1e9 ... +Inf"}
+		},
+		Run: func(c *drv.Ctx, idx uint64) {
+			buf = enum.UnrankPath(idx*stride, 3, n, e, buf)
+			in := enum.ClonePath(buf)
+			rev := clipper.ReversePath(enum.ClonePath(in))
+			short, mid := enum.ClonePath(in[:4]), enum.ClonePath(rev[:n-1])
+			sets := []Paths{{in, short, mid, in}, {short, in, mid}, {mid, short, in, short}}
+			differs := false
+			for _, e2 := range []int64{0, 1, 2, 4} {
+				eps := float64(e2) / 2
+				for _, closed := range []bool{true, false} {
+					for si, set := range sets {
+						g64 := clipper.SimplifyPaths64(set, eps, closed)
+						gd := clipper.SimplifyPathsD(toD(set), eps, closed)
+						c.Exec(2)
+						if len(g64) != len(set) || len(gd) != len(set) {
+							c.Fail("paths-count", "SimplifyPaths", "SimplifyPaths64/D(%v, eps=%v, closed=%v) returned %d / %d paths for %d", set, eps, closed, len(g64), len(gd), len(set))
+							continue
+						}
+						for i, p := range set {
+							w64 := clipper.SimplifyPath64(enum.ClonePath(p), eps, closed)
+							wd := clipper.SimplifyPathD(clipper.Path64ToPathD(p), eps, closed)
+							c.Exec(2)
+							if len(w64) < len(p) {
+								differs = true
+							}
+							if !enum.EqualPath(g64[i], w64) {
+								c.Fail("paths-variant", "SimplifyPaths64", "SimplifyPaths64(%v, eps=%v, closed=%v)[%d] = %v, but SimplifyPath64 of that path alone gives %v (set %d)", set, eps, closed, i, g64[i], w64, si)
+							}
+							if len(gd[i]) != len(wd) || !enum.EqualPath(clipper.PathDToPath64(gd[i]), clipper.PathDToPath64(wd)) {
+								c.Fail("paths-variant", "SimplifyPathsD", "SimplifyPathsD(%v, eps=%v, closed=%v)[%d] = %v, but SimplifyPathD of that path alone gives %v (set %d)", set, eps, closed, i, gd[i], wd, si)
+							}
+						}
+					}
+				}
+			}
+			for _, eps := range huge {
+				g := clipper.SimplifyPath64(enum.ClonePath(in), eps, false)
+				gD := clipper.PathDToPath64(clipper.SimplifyPathD(clipper.Path64ToPathD(in), eps, false))
+				gp := clipper.SimplifyPaths64(Paths{in}, eps, false)
+				c.Exec(3)
+				if len(gp) != 1 {
+					c.Fail("paths-count", "SimplifyPaths64 huge epsilon", "SimplifyPaths64 of one path returned %d paths", len(gp))
+					continue
+				}
+				for k, got := range []Path{g, gD, gp[0]} {
+					name := []string{"SimplifyPath64", "SimplifyPathD", "SimplifyPaths64"}[k]
+					if len(got) < 2 || got[0] != in[0] || got[len(got)-1] != in[len(in)-1] {
+						c.Fail("open-ends", name+" huge epsilon", "%s(%v, epsilon=%g, open): end points not kept: %v", name, in, eps, got)
+					} else if !isSubsequence(got, in) {
+						c.Fail("not-subsequence", name+" huge epsilon", "%s(%v, epsilon=%g, open): result %v is not a sub-sequence of the input", name, in, eps, got)
+					}
+				}
+			}
+			if differs {
+				c.Nontriv()
+				c.Count("paths_partially_simplified", 1)
+			}
+		}}
+}
+
 func init() {
 	drv.Register(&drv.Check{
 		ID:    "C16",
 		Title: "SimplifyPath removes only near-collinear vertices and stops when none is left",
-		Rule: "every path of P(3,3..6), P(4,4..5) under unit, stride-10 and shallow-angle embeddings x epsilon in {0,.5,1,1.5,2,5,12} x {closed,open} through SimplifyPath64, SimplifyPathD (same numbers and path/4 with eps/4), SimplifyPaths64; each case re-run translated by (2^20,-2^20) and (2^29-200,2^29-200) and scaled by 2^4, 2^12, 2^20, 2^24 (path and epsilon). " +
+		Rule: "every path of P(3,3..6), P(4,4..5) under unit, stride-10 and shallow-angle embeddings x epsilon in {0,.5,1,1.5,2,5,12} x {closed,open} through SimplifyPath64, SimplifyPathD (same numbers and path/4 with eps/4), SimplifyPaths64; the Paths variants (64 and D) with three or four paths of different lengths per call, each result equal to that of the single-path function; open paths under epsilons 3.1e9 ... +Inf (end points kept); each case re-run translated by (2^20,-2^20) and (2^29-200,2^29-200) and scaled by 2^4, 2^12, 2^20, 2^24 (path and epsilon). " +
 			"Oracle: sub-sequence; open end points kept; exact big-integer test that no retained vertex is (clearly, 1e-9 relative guard) within epsilon of the line through its retained neighbours; epsilon 0 keeps the exact area of closed paths; < 4 points returned as is; identical retained vertices across translated / scaled / D runs. non-trivial = path from which some but not all vertices were removed",
 		Assumptions:      []string{"<= 6 vertices; a vertex at a distance within 1e-9 (relative) of epsilon is accepted either way (float64 rounding of the library's squared distance)"},
 		RequiredCounters: []string{"paths_partially_simplified"},
@@ -262,6 +341,11 @@ func init() {
 			out = append(out, c16Scope(enum.Eunit, 4, 4, 3), c16Scope(enum.Ean, 4, 4, 3))
 			for n := 4; n <= 5; n++ {
 				out = append(out, c16Scope(enum.EbigOdd, 3, n, n-2)) // differences near 2^28 with many significant bits
+			}
+			if tier == "quick" {
+				out = append(out, c16MultiScope(enum.Eunit, 5, 1, 2), c16MultiScope(enum.Ean, 6, 7, 3), c16MultiScope(enum.EbigOdd, 5, 2, 3))
+			} else {
+				out = append(out, c16MultiScope(enum.Eunit, 5, 1, 2), c16MultiScope(enum.Eunit, 6, 1, 3), c16MultiScope(enum.Ean, 6, 1, 3), c16MultiScope(enum.EbigOdd, 5, 1, 3), c16MultiScope(enum.Eax, 6, 1, 3))
 			}
 			if tier == "thorough" {
 				out = append(out, c16Scope(enum.Eunit, 4, 5, 4), c16Scope(enum.Eax, 4, 5, 4), c16Scope(enum.Esh, 3, 6, 4), c16Scope(enum.Ean, 3, 7, 5))
